@@ -1,5 +1,6 @@
 import PhyloModel.Arena.Traverse
 import PhyloModel.Arena.QRLemmas
+import PhyloModel.Arena.LevelFacts
 /-! # C10 — traversals and subtree listings enumerate exactly the subtree, in order
 
 `Rep a i t` says that arena slot `i` represents the rose tree `t` (ids at the nodes, children in child-list
@@ -73,6 +74,28 @@ theorem only_subtree_nodes (a : Arena) (t : RTI) (f i : Nat) (h : Rep a i t) (hf
   constructor
   · rintro ⟨l, hl, hy⟩; cases hl; exact (post_perm t).mem_iff.mp hy
   · intro hy; exact ⟨post t, rfl, (post_perm t).mem_iff.mpr hy⟩
+
+/-- **closed form under the invariant** (no fuel or representation hypothesis left): on any arena satisfying
+    the invariant and any live start node, pre-order and post-order succeed with the fuel the executable
+    model supplies, and each lists exactly the nodes below the start node — every one of them, nothing else
+    (in particular no removed slot), each exactly once. -/
+theorem recursive_traversals_exact (a : Arena) (hinv : Inv a) (i : Nat) (hl : live a i) :
+    ∃ t, Rep a i t ∧ preorderF (fuelOf a) a i = some (pre t) ∧ postorderF (fuelOf a) a i = some (post t) ∧
+      (pre t).Nodup ∧ (post t).Nodup ∧ (∀ v, v ∈ pre t ↔ ∃ k, BelowK a i v k) ∧
+      (∀ v, v ∈ post t ↔ ∃ k, BelowK a i v k) :=
+  traversals_total hinv i hl
+
+/-- the same for level order: it succeeds, starts with the start node and lists exactly the nodes below
+    it, each exactly once -/
+theorem levelorder_exact (a : Arena) (hinv : Inv a) (i : Nat) (hl : live a i) :
+    ∃ l, levelorder a i = some l ∧ l.Nodup ∧ (∀ v, v ∈ l ↔ ∃ k, BelowK a i v k) ∧ l.head? = some i :=
+  levelorder_closed hinv i hl
+
+/-- the represented tree of a live slot never has more nodes than the arena has slots, so the fuel
+    `fuelOf` of every executable traversal suffices -/
+theorem fuel_suffices (a : Arena) (hinv : Inv a) (i : Nat) (hl : live a i) :
+    ∃ t, Rep a i t ∧ szR t ≤ a.size ∧ height t ≤ fuelOf a ∧ szR t ≤ fuelOf a :=
+  rep_total hinv i hl
 
 /-- non-vacuity: `((1,2)0,(4)3)` laid out with an unused slot -/
 example : (LV.bfsD 10 [(toLV (.node 0 [.node 1 [.node 2 [], .node 3 []], .node 5 [.node 6 []]]), 0)]).map (·.1)
